@@ -100,7 +100,14 @@ def _gc(parent, keep_prefix, keep=3):
     except OSError:
         return
     ents.sort(key=lambda e: os.path.getmtime(os.path.join(parent, e)), reverse=True)
+    now = time.time()
     for e in ents[keep:]:
+        # never remove what a concurrent check (on another source tree) may be about to run
+        try:
+            if now - os.path.getmtime(os.path.join(parent, e)) < 3600:
+                continue
+        except OSError:
+            continue
         shutil.rmtree(os.path.join(parent, e), ignore_errors=True)
 
 
